@@ -207,8 +207,11 @@ func coarsen(d *simio.Delivery, n int) *simio.Delivery {
 
 func c05DeliveryRaw(r *core.Rand, class int, k int, withData bool) *simio.Delivery {
 	d := &simio.Delivery{FaultAt: k, FaultWithData: withData}
+	if k >= 0 && r.Chance(1, 3) {
+		d.ErrWraps = 1 + r.Intn(7)
+	}
 	if k >= 0 && r.Chance(1, 4) {
-		d.ErrWraps = 1 + r.Intn(2)
+		d.Recover = true
 	}
 	switch class {
 	case 0: // single read
@@ -483,6 +486,9 @@ func (c *c05) Check(rr *RunResult, st *Stats) []Failure {
 		if limit == 0 && k < 0 && consumed >= 0 && consumed != n {
 			bad("under-read", "limit 0 must consume everything: %d of %d bytes taken", consumed, n)
 		}
+		if op.StatSize > 0 {
+			st.Fault("stat_size_differs_from_content")
+		}
 		wantOK := lib.B(x, limit)
 		okAnswer := res.ErrNil && res.R.Key() == wantOK.Key()
 		errAnswer := !res.ErrNil && res.R.Key() == octet && (res.ErrInjected || res.ErrKind == "eio")
@@ -497,6 +503,15 @@ func (c *c05) Check(rr *RunResult, st *Stats) []Failure {
 				bad(cls, "the stream failed at offset %d (with data: %v) before the header was complete, got %s err=%q; want application/octet-stream and the injected error", k, d.FaultWithData, res.R.Key(), res.ErrText)
 			}
 			st.Fault("read_error_reached")
+			if d.ErrWraps > 0 && d.ErrWraps < 3 {
+				st.Fault("read_error_wrapping_eof")
+			}
+			if d.ErrWraps >= 3 {
+				st.Fault("read_error_calling_itself_temporary")
+			}
+			if d.Recover {
+				st.Fault("read_error_transient")
+			}
 			if k == 0 {
 				st.Probe("fault_at_offset_0")
 			}
